@@ -19,6 +19,8 @@ mod signal;
 mod stack;
 mod stupid;
 mod templates;
+#[cfg(stgit_verif)]
+mod verif_point;
 mod wrap;
 
 use std::{ffi::OsString, fmt::Write as _, io::Write as _, path::PathBuf};
